@@ -354,9 +354,14 @@ def harness(gen, info: Dict[str, Any], enc: Dict[str, Any], mapping: Dict[str, s
                 # user-side recorder + unbind
                 o.append(f'  g_bind["{key}"] = [](const std::string& client) {{')
                 o.append(f'    (void)client; auto& port = {user_port_expr(pname)};')
-                o.append(f'    port.{ev.direction}.{ev.name} = [client]({params}) -> '
+                # every binding gets a generation number: a handler that was replaced later
+                # must never be the one that is called
+                o.append('    static std::map<std::string, long long> gens; '
+                         'const long long gen = ++gens[client];')
+                o.append(f'    port.{ev.direction}.{ev.name} = [client, gen]({params}) -> '
                          f'{cx.reply_type(ev.reply)} {{')
-                o.append(handler_body(cx, 'user', pname, ev, extra))
+                o.append('      (void)gen;')
+                o.append(handler_body(cx, 'user', pname, ev, extra + '.n("gen", gen)'))
                 o.append('    };')
                 o.append('  };')
                 o.append(f'  g_unbind["{key}"] = [](const std::string& client) {{')
